@@ -354,7 +354,8 @@ DictSetDefault(d, k, dflt) == IF ~Hashable(k) THEN <<TE, d>>
                                    IF i = 0 THEN <<Val(dflt), WithPay(d, Append(Pay(d), <<k, dflt>>))>>
                                    ELSE <<Val(Pay(d)[i][2]), d>>
 \* has = a default was given
-DictPop(d, k, has, dflt) == IF ~Hashable(k) THEN <<TE, d>>
+DictPop(d, k, has, dflt) == IF Pay(d) = <<>> THEN <<IF has THEN Val(dflt) ELSE KE, d>>      \* an empty dict does not hash the key
+                            ELSE IF ~Hashable(k) THEN <<TE, d>>
                             ELSE LET i == DictIdx(Pay(d), k, 1) IN
                                  IF i = 0 THEN <<IF has THEN Val(dflt) ELSE KE, d>>
                                  ELSE <<Val(Pay(d)[i][2]), WithPay(d, RemoveAt(Pay(d), i))>>
@@ -362,7 +363,8 @@ DictPop(d, k, has, dflt) == IF ~Hashable(k) THEN <<TE, d>>
 \* list.pop(i) / bytearray.pop(i) on payload p with element constructor
 PopIndex(x, i, elem(_)) == LET c == AsIndex(i) n == Len(Pay(x)) IN
                            IF c[1] = "te" THEN <<TE, x>>
-                           ELSE IF c[1] = "big" \/ n = 0 THEN <<IE, x>>
+                           ELSE IF c[1] = "big" THEN <<OE, x>>
+                           ELSE IF n = 0 THEN <<IE, x>>
                            ELSE LET j == IF c[2] < 0 THEN c[2] + n ELSE c[2] IN
                                 IF j < 0 \/ j >= n THEN <<IE, x>>
                                 ELSE <<Val(elem(Pay(x)[j + 1])), WithPay(x, RemoveAt(Pay(x), j + 1))>>
@@ -720,7 +722,8 @@ RawDecode(b, codec) == CASE codec = "utf8" -> Utf8Dec(b)
                          [] OTHER -> IF Len(b) >= 2 /\ b[1] = 255 /\ b[2] = 254 THEN Utf16Dec(SubSeqSafe(b, 3, Len(b)), FALSE)
                                      ELSE IF Len(b) >= 2 /\ b[1] = 254 /\ b[2] = 255 THEN Utf16Dec(SubSeqSafe(b, 3, Len(b)), TRUE)
                                      ELSE Utf16Dec(b, FALSE)
-Decode(b, codec, err) == IF codec = "?" THEN Exc("LookupError")
+Decode(b, codec, err) == IF b = <<>> THEN Val(St(<<>>))                  \* empty input: no codec lookup
+                         ELSE IF codec = "?" THEN Exc("LookupError")
                          ELSE LET r == RawDecode(b, codec) IN
                               IF \A i \in 1..Len(r) : r[i] >= 0 THEN Val(St(r))
                               ELSE IF err = "strict" THEN Exc("UnicodeDecodeError")
@@ -747,7 +750,7 @@ NoChar(c) == [al |-> FALSE, dc |-> FALSE, dg |-> FALSE, nu |-> FALSE, sp |-> FAL
 CharRec(c) == CASE
       c = 97 -> [al |-> TRUE, dc |-> FALSE, dg |-> FALSE, nu |-> FALSE, sp |-> FALSE, up |-> FALSE, lo |-> TRUE, ti |-> FALSE, cs |-> TRUE,
                     tl |-> <<97>>, tu |-> <<65>>, tt |-> <<65>>]
-   [] c = 65 -> [al |-> TRUE, dc |-> FALSE, dg |-> FALSE, nu |-> FALSE, sp |-> FALSE, up |-> TRUE, lo |-> FALSE, ti |-> TRUE, cs |-> TRUE,
+   [] c = 65 -> [al |-> TRUE, dc |-> FALSE, dg |-> FALSE, nu |-> FALSE, sp |-> FALSE, up |-> TRUE, lo |-> FALSE, ti |-> FALSE, cs |-> TRUE,
                     tl |-> <<97>>, tu |-> <<65>>, tt |-> <<65>>]
    [] c = 49 -> [al |-> FALSE, dc |-> TRUE, dg |-> TRUE, nu |-> TRUE, sp |-> FALSE, up |-> FALSE, lo |-> FALSE, ti |-> FALSE, cs |-> FALSE,
                     tl |-> <<49>>, tu |-> <<49>>, tt |-> <<49>>]
@@ -767,21 +770,21 @@ CharRec(c) == CASE
                     tl |-> <<1635>>, tu |-> <<1635>>, tt |-> <<1635>>]
    [] c = 178 -> [al |-> FALSE, dc |-> FALSE, dg |-> TRUE, nu |-> TRUE, sp |-> FALSE, up |-> FALSE, lo |-> FALSE, ti |-> FALSE, cs |-> FALSE,
                     tl |-> <<178>>, tu |-> <<178>>, tt |-> <<178>>]
-   [] c = 304 -> [al |-> TRUE, dc |-> FALSE, dg |-> FALSE, nu |-> FALSE, sp |-> FALSE, up |-> TRUE, lo |-> FALSE, ti |-> TRUE, cs |-> TRUE,
+   [] c = 304 -> [al |-> TRUE, dc |-> FALSE, dg |-> FALSE, nu |-> FALSE, sp |-> FALSE, up |-> TRUE, lo |-> FALSE, ti |-> FALSE, cs |-> TRUE,
                     tl |-> <<105, 775>>, tu |-> <<304>>, tt |-> <<304>>]
    [] c = 189 -> [al |-> FALSE, dc |-> FALSE, dg |-> FALSE, nu |-> TRUE, sp |-> FALSE, up |-> FALSE, lo |-> FALSE, ti |-> FALSE, cs |-> FALSE,
                     tl |-> <<189>>, tu |-> <<189>>, tt |-> <<189>>]
-   [] c = 8551 -> [al |-> FALSE, dc |-> FALSE, dg |-> FALSE, nu |-> TRUE, sp |-> FALSE, up |-> TRUE, lo |-> FALSE, ti |-> TRUE, cs |-> TRUE,
+   [] c = 8551 -> [al |-> FALSE, dc |-> FALSE, dg |-> FALSE, nu |-> TRUE, sp |-> FALSE, up |-> TRUE, lo |-> FALSE, ti |-> FALSE, cs |-> TRUE,
                     tl |-> <<8567>>, tu |-> <<8551>>, tt |-> <<8551>>]
    [] c = 95 -> [al |-> FALSE, dc |-> FALSE, dg |-> FALSE, nu |-> FALSE, sp |-> FALSE, up |-> FALSE, lo |-> FALSE, ti |-> FALSE, cs |-> FALSE,
                     tl |-> <<95>>, tu |-> <<95>>, tt |-> <<95>>]
    [] c = 10 -> [al |-> FALSE, dc |-> FALSE, dg |-> FALSE, nu |-> FALSE, sp |-> TRUE, up |-> FALSE, lo |-> FALSE, ti |-> FALSE, cs |-> FALSE,
                     tl |-> <<10>>, tu |-> <<10>>, tt |-> <<10>>]
-   [] c = 66560 -> [al |-> TRUE, dc |-> FALSE, dg |-> FALSE, nu |-> FALSE, sp |-> FALSE, up |-> TRUE, lo |-> FALSE, ti |-> TRUE, cs |-> TRUE,
+   [] c = 66560 -> [al |-> TRUE, dc |-> FALSE, dg |-> FALSE, nu |-> FALSE, sp |-> FALSE, up |-> TRUE, lo |-> FALSE, ti |-> FALSE, cs |-> TRUE,
                     tl |-> <<66600>>, tu |-> <<66560>>, tt |-> <<66560>>]
    [] c = 98 -> [al |-> TRUE, dc |-> FALSE, dg |-> FALSE, nu |-> FALSE, sp |-> FALSE, up |-> FALSE, lo |-> TRUE, ti |-> FALSE, cs |-> TRUE,
                     tl |-> <<98>>, tu |-> <<66>>, tt |-> <<66>>]
-   [] c = 66 -> [al |-> TRUE, dc |-> FALSE, dg |-> FALSE, nu |-> FALSE, sp |-> FALSE, up |-> TRUE, lo |-> FALSE, ti |-> TRUE, cs |-> TRUE,
+   [] c = 66 -> [al |-> TRUE, dc |-> FALSE, dg |-> FALSE, nu |-> FALSE, sp |-> FALSE, up |-> TRUE, lo |-> FALSE, ti |-> FALSE, cs |-> TRUE,
                     tl |-> <<98>>, tu |-> <<66>>, tt |-> <<66>>]
    [] OTHER -> NoChar(c)
 AllCh(s, P(_)) == s # <<>> /\ \A i \in 1..Len(s) : P(CharRec(s[i]))
@@ -886,7 +889,7 @@ AnyV == {None, I(0), I(1), I(-1), Bo(TRUE), Bo(FALSE), Fl(6), NZ, NaN, Big(1), S
 Keys == {None, I(1), Bo(TRUE), Fl(4), St(<<107>>), SA, L0, Tu(<<I(1)>>), Set1, FSet1, D0} \cup L2({Big(1), Tu(<<L0>>), I(2), Sub(I(1), "S")})
 Idx == {I(0), I(1), I(-1), I(2), I(-3), I(3), Big(1), None, Fl(4), Bo(TRUE)}
        \cup L2({I(100), I(-100), Big(-1), Big(2), Big(-2), SA, Sub(I(1), "S"), I(-2)})
-SIdx == {I(0), I(1), I(-1), I(2), I(3), Big(1), None} \cup L2({I(-2), I(5), I(-100), Big(-1), Big(2), Fl(4), Bo(TRUE)})
+SIdx == {I(0), I(1), I(-1), I(2), I(3), I(-100), Big(1), None} \cup L2({I(-2), I(5), Big(-1), Big(2), Fl(4), Bo(TRUE)})
 Prefs == {SE, SA, SAB, SB, St(<<233>>), BA, None, Tu(<<St(<<120>>), SA>>), Tu(<<SA, I(1)>>), Tu(<<I(1), SA>>)}
          \cup L2({St(<<8364>>), St(<<128512>>), St(<<97, 98, 99>>), BE, By(<<98>>), Ba(<<97>>), I(1), T0, Tu(<<BA, By(<<120>>)>>),
                   Li(<<SA>>), Sub(SA, "S"), Tu(<<Tu(<<SA>>)>>)})
@@ -991,12 +994,12 @@ ShapeTable == <<
   <<"s_clear", "set", P1(SetRecv)>>, <<"s_pop", "set", P1(SetRecv \ {Set12})>>,
   <<"ba_append", "bytearray", P2({Ba(<<>>), BaAB, Sub(BaAB, "S"), Sub(BaAB, "O"), None, L0, BA},
                                   {I(0), I(65), I(255), I(256), I(-1), Big(1), Big(2), Big(-2), None, SA, BA, Fl(4), Bo(TRUE), Sub(I(66), "S")})>>,
-  <<"ba_extend", "bytearray", P2({Ba(<<>>), BaAB, Sub(BaAB, "O"), None, L0},
+  <<"ba_extend", "bytearray", P2({Ba(<<>>), BaAB, Sub(BaAB, "O"), None, T12},
                                   {By(<<99, 100>>), Ba(<<99>>), L12, Li(<<I(256)>>), Li(<<SA>>), SA, None, I(1), Tu(<<I(3)>>), BE, Li(<<I(1), None>>)})>>,
   <<"startswith1", "str", P2(TextRecv, Prefs)>>, <<"endswith1", "str", P2(TextRecv, Prefs)>>,
   <<"startswith2", "str", P3(TextRecvS, PrefsS, SIdx \cup {Fl(4)})>>, <<"endswith2", "str", P3(TextRecvS, PrefsS, SIdx \cup {Fl(4)})>>,
   <<"startswith3", "str", P4(TextRecv4, Prefs4, SIdx4, SIdx4)>>, <<"endswith3", "str", P4(TextRecv4, Prefs4, SIdx4, SIdx4)>>,
-  <<"find1", "str", P2(StrRecv, Prefs)>>, <<"rfind1", "str", P2(StrRecv, Prefs)>>, <<"count1", "str", P2(StrRecv, Prefs)>>,
+  <<"find1", "str", P2(StrRecv, Prefs)>>, <<"rfind1", "str", P2(StrRecv, Prefs)>>, <<"count1", "str", P2(Strs \cup {None, I(1)}, Prefs)>>,
   <<"find2", "str", P3(StrRecvS, PrefsS, SIdx \cup {Fl(4)})>>,
   <<"find3", "str", P4(StrRecv4, Prefs4, SIdx4, SIdx4)>>, <<"rfind3", "str", P4(StrRecv4, Prefs4, SIdx4, SIdx4)>>,
   <<"count3", "str", P4(StrRecv4, Prefs4, SIdx4, SIdx4)>>,
@@ -1012,8 +1015,8 @@ ShapeTable == <<
   <<"decode0", "str", P1(DecRecv)>>, <<"decode1", "str", P2(DecRecv, Encs \cup {None, I(1)})>>,
   <<"decode2", "str", P3(DecRecv, Encs, Errs \cup {None})>>,
   <<"slicedecode", "str", P4({By(<<97, 98, 99, 100>>), By(<<97, 195, 169, 98>>), BE, Ba(<<97, 98, 99, 100>>), None},
-                              {I(0), I(1), I(-1), I(2), None} \cup L2({I(-100), I(100), Big(1), Big(-1)}),
-                              {I(0), I(2), I(-1), I(3), None} \cup L2({I(100), I(-100), Big(1), Big(-1)}),
+                              {I(0), I(1), I(-1), I(-100), None} \cup L2({I(2), I(100), Big(1), Big(-1)}),
+                              {I(0), I(2), I(-1), I(100), None} \cup L2({I(3), I(-100), Big(1), Big(-1)}),
                               {Utf8, St(<<97, 115, 99, 105, 105>>), St(<<108, 97, 116, 105, 110, 49>>)} \cup L2({St(<<117, 116, 102, 45, 49, 54>>)}))>>,
   <<"mul", "str", P2(MulRecv, MulN)>>, <<"rmul", "str", P2(MulRecv, MulN)>>,
   <<"contains", "str", P2(ContRecv, ContArgs)>>,
